@@ -22,6 +22,14 @@ CHECKS = {
             "Predicates are validity checks, not a reference resolver. P3 reads 'excluded by a Remove relation' permissively (counted). "
             "One known finding (C02-implied-remover) is attributed by a shape matcher; everything else fails the check.",
             "bounded exhaustive enumeration + property-based testing (rapid) against validity predicates", "DESIGN.md §5 C02"),
+    "C03": ("exploration",
+            "Property-based exploration of single-caller histories on an idle machine with generated negotiation-decision tables: each "
+            "returned Result is compared with the caller's own traced transition (Canceled => nothing moved; Executed => the documented effect), "
+            "an observer checks that no half-applied time vector is ever visible, CanX is compared with X issued next, and disposed / "
+            "backing-off / over-limit phases must cancel with no effect.",
+            "The observer only sees interleavings the scheduler produces. CanX==X asserted only where the statement does (non-Multi, handlers "
+            "ignoring the check flag).",
+            "property-based testing (rapid): result-vs-trace oracle, metamorphic CanX==X relation, atomicity observer", "DESIGN.md §5 C03"),
 }
 
 NOT_YET = "check not built yet in this session (planned, see DESIGN.md §9)"
